@@ -18,7 +18,7 @@ import json, os, re, subprocess, sys, tempfile
 VERIF = os.path.dirname(os.path.dirname(os.path.abspath(__file__)))
 REPO = os.environ.get("IMB_REPO", "/repo")
 HEADER = os.path.join(REPO, "lib", "intel-ipsec-mb.h")
-OUT = os.path.join(VERIF, "coq", "Gen", "GenEnums.v")
+OUT = os.path.join(os.environ.get("IMB_COQ_DIR", os.path.join(VERIF, "coq")), "Gen", "GenEnums.v")  # IMB_COQ_DIR: scratch trees of mutation trials
 
 ENUMS = [  # typedef name -> Coq list name
     ("IMB_CIPHER_MODE", "all_cipher_modes"),
